@@ -1,6 +1,11 @@
 //! C16 (a, continued): the integer prefix of `EvaluationDomain::new(j, k)` (proofs/src/poly/domain.rs),
 //! which `VerifyingKey::read_from_cs` calls with `j = cs.degree()` and the header byte `k` after having
-//! checked only `k <= F::S`.
+//! checked `k <= F::S` and (since fix 3aa0b09) `extended_k_for(j, k) <= F::S`.
+//!
+//! Assume-guarantee split: h_vk_read.rs proves that the reader calls `EvaluationDomain::new` only
+//! inside this precondition (the stand-in for `new` there asserts it through hook H11
+//! `verif_extended_k_for`, the real function); the harnesses here prove that under the precondition the
+//! integer prefix of the real `new` does not panic.
 //!
 //! Under Kani the REAL generic `EvaluationDomain::<F>::new` is instantiated at `CutF`: a field with
 //! `S = 32` (as BLS12-381's scalar field) whose every arithmetic operation ends the path, so exactly
@@ -23,14 +28,27 @@ fn run(j: u32, k: u32) {
     }
 }
 
+/// the precondition the reader establishes before calling `new` (real code, hook H11)
+fn reader_lets_through(j: u32, k: u32) -> bool {
+    #[cfg(kani)]
+    {
+        k <= 32 && EvaluationDomain::<crate::toyf::CutF>::verif_extended_k_for(j, k) <= 32
+    }
+    #[cfg(not(kani))]
+    {
+        k <= 32 && EvaluationDomain::<midnight_curves::Fq>::verif_extended_k_for(j, k) <= 32
+    }
+}
+
 /// minimal degree any constraint system with a permutation argument has (j = 3): for every header
-/// byte k accepted by read_from_cs (k <= S) the prefix does not panic.
+/// byte k accepted by read_from_cs the prefix does not panic.
 #[cfg_attr(kani, kani::proof)]
 #[cfg_attr(kani, kani::unwind(36))]
 pub fn domain_prefix_min_degree() {
     let k: u8 = any();
     assume(k as u32 <= 32);
-    crate::vcover!(k == 32);
+    assume(reader_lets_through(3, k as u32));
+    crate::vcover!(k == 31);
     crate::vcover!(k == 0);
     run(3, k as u32);
 }
@@ -43,6 +61,8 @@ pub fn domain_prefix_any_degree() {
     let j: u8 = any();
     assume(k as u32 <= 32);
     assume(j >= 3 && j <= 17);
+    assume(reader_lets_through(j as u32, k as u32));
     crate::vcover!(j == 17 && k == 20);
+    crate::vcover!(j == 17 && k == 28);
     run(j as u32, k as u32);
 }
